@@ -472,3 +472,166 @@ def run(ctx):  # noqa: F811
     r09_6(ctx, ctx.model)
     r09_7(ctx, ctx.model)
     r09_8(ctx, ctx.model)
+
+
+# ---------------------------------------------------------------------------------------------------------------- R09.9 - R09.11
+_MEMO_SELFTEST = '''
+_cache = {}
+def make(target):
+    if target.shape not in _cache:
+        _cache[target.shape] = build(target.nlat, target.nlon)
+    return _cache[target.shape]
+'''
+
+
+def module_memos(tree):
+    """(function node, store statement, cache name, key expr, value expr) for every `CACHE[key] = value` into a module-level dict"""
+    caches = {t.id for st in tree.body if isinstance(st, ast.Assign) and isinstance(st.value, (ast.Dict, ast.Call))
+              and (isinstance(st.value, ast.Dict) or src(st.value.func) in ("dict", "OrderedDict", "collections.OrderedDict"))
+              for t in st.targets if isinstance(t, ast.Name)}
+    out = []
+    for fn in ast.walk(tree):
+        if not isinstance(fn, (ast.FunctionDef, ast.AsyncFunctionDef)):
+            continue
+        for st in ast.walk(fn):
+            if isinstance(st, ast.Assign) and len(st.targets) == 1 and isinstance(st.targets[0], ast.Subscript) \
+                    and isinstance(st.targets[0].value, ast.Name) and st.targets[0].value.id in caches:
+                out.append((fn, st, st.targets[0].value.id, st.targets[0].slice, st.value))
+    return out
+
+
+def _paths(e, env=None, depth=3):
+    """attribute paths / names read by e, local single assignments unfolded"""
+    out = set()
+    skip = set()
+    for z in ast.walk(e):
+        if isinstance(z, ast.Attribute):
+            p = src(z)
+            if all(c.isidentifier() for c in p.split(".")):
+                out.add(p)
+    # keep only maximal paths
+    out = {p for p in out if not any(q != p and q.startswith(p + ".") for q in out)}
+    for z in ast.walk(e):
+        if isinstance(z, ast.Name) and isinstance(z.ctx, ast.Load) and not any(p.split(".")[0] == z.id for p in out):
+            if env and z.id in env and depth > 0:
+                out |= _paths(env[z.id], env, depth - 1)
+            else:
+                out.add(z.id)
+    return out - skip
+
+
+def r09_9(ctx, m):
+    R = "R09.9"
+    ctx.rule(R, "module-level memoisation in the transform modules: whatever the cached value is built from is determined by the cache "
+                "key - every attribute path of a parameter read while building the value also occurs in the key expression (or the "
+                "key is the object itself); e.g. a Gauss-Legendre geometry (nlat, nlon) must not be keyed by the flat pixel count",
+             floor=0)
+    t = ast.parse(_MEMO_SELFTEST)
+    mm = module_memos(t)
+    if len(mm) != 1 or _paths(mm[0][4]) <= _paths(mm[0][3]):
+        from ..model import AnalysisError
+        raise AnalysisError("R09.9: self-test of the memo matcher failed")
+    builtins_ = {"np", "numpy", "dict", "ducc0", "int", "float", "tuple", "len", "range", "jnp", "jax", "scipy"}
+    n = 0
+    for mn in ("nifty.cl.operators.harmonic_operators", "nifty.cl.ducc_dispatch", "nifty.re.correlated_field", "nifty.cl.domains.rg_space",
+               "nifty.cl.domains.gl_space", "nifty.cl.domains.lm_space", "nifty.cl.domains.hp_space"):
+        mod = m.module(mn, required=False)
+        if mod is None:
+            continue
+        for fn, st, cname, key, val in module_memos(mod.tree):
+            n += 1
+            env = {}
+            for s2 in ast.walk(fn):
+                if isinstance(s2, ast.Assign) and len(s2.targets) == 1 and isinstance(s2.targets[0], ast.Name):
+                    env[s2.targets[0].id] = s2.value
+            params = {a.arg for a in fn.args.args}
+            kp = {p for p in _paths(key, env)}
+            vp = {p for p in _paths(val, env) if p.split(".")[0] in params}
+            whole = {p for p in kp if p in params}
+            missing = sorted(p for p in vp if p not in kp and p.split(".")[0] not in whole)
+            ctx.check(R, f"{mod.relpath}::{fn.name}::{cname}[{src(key)}] determines the cached value", not missing,
+                      f"value reads {missing} which the key `{src(key)}` does not contain: two arguments with the same key share one entry", mod.relpath, st)
+    if not n:
+        ctx.ok(R, "transform modules::no module-level memoisation", "nothing is cached across operator instances", "nifty/cl/operators/harmonic_operators.py")
+
+
+def r09_10(ctx, m):
+    R = "R09.10"
+    ctx.rule(R, "back-end transforms leave their argument untouched: no call in ducc_dispatch passes an in-place option (overwrite_x / "
+                "inplace / overwrite_input true) or the input buffer as `out=` to a transform - the SciPy back-end would destroy the "
+                "caller's (possibly locked field's) array for complex input and disagree with the native one on the second use", floor=6)
+    mod = m.module("nifty.cl.ducc_dispatch")
+    for fi in mod.all_functions:
+        calls = [c for c in walk_no_nested(fi.node) if isinstance(c, ast.Call) and any(k in src(c.func) for k in ("fft", "hartley", "c2c", "r2c", "c2r", "dct", "dst"))
+                 and not src(c.func).startswith("_")]
+        if not calls or not fi.params():
+            continue
+        ctx.saw_func(fi)
+        a0 = fi.params()[0]
+        for c in calls:
+            bad = [f"{k.arg}={src(k.value)}" for k in c.keywords
+                   if (k.arg in ("overwrite_x", "inplace", "overwrite_input", "overwrite") and not (isinstance(k.value, ast.Constant) and not k.value.value))
+                   or (k.arg == "out" and src(k.value).split(".")[0].split("[")[0] == a0)]
+            ctx.check(R, f"{fi.key}::`{short(c, 40)}` does not write into its input", not bad, f"in-place option {bad}" if bad else "", fi, c)
+
+
+def r09_11(ctx, m):
+    R = "R09.11"
+    ctx.rule(R, "RGSpace.check_codomain rejects a partner as soon as ONE axis has the wrong harmonic distance: the refusal is taken "
+                "under `not all(<axis ok>)` or `any(<axis wrong>)` of the per-axis comparison (never `all(<wrong>)` / `not any(<ok>)`) - "
+                "a transform onto a partly mismatched grid has inconsistent volume factors", floor=1)
+    from ..util import cfg_of, strip_not
+    C = m.cls("nifty.cl.domains.rg_space", "RGSpace")
+    fi = C.methods.get("check_codomain")
+    key = f"{C.key}.check_codomain::distance mismatch on any axis is refused"
+    if fi is None:
+        ctx.und(R, key, "method missing", C)
+        return
+    ctx.saw_func(fi)
+    env = {}
+    for st in walk_no_nested(fi.node):
+        if isinstance(st, ast.Assign) and len(st.targets) == 1 and isinstance(st.targets[0], ast.Name):
+            env[st.targets[0].id] = st.value
+    verdicts = []
+    for st in walk_no_nested(fi.node):
+        if not (isinstance(st, ast.If) and any(isinstance(b, ast.Raise) for b in st.body)):
+            continue
+        t, pol = strip_not(st.test, True)
+        if not (isinstance(t, ast.Call) and call_name(t) in ("all", "any") and len(t.args) == 1):
+            continue
+        arr = t.args[0]
+        if isinstance(arr, ast.Name) and arr.id in env:
+            arr = env[arr.id]
+        neg_arr = False
+        while isinstance(arr, ast.UnaryOp) and isinstance(arr.op, (ast.Invert, ast.Not)):
+            arr = arr.operand
+            neg_arr = not neg_arr
+        if not (isinstance(arr, ast.Compare) and len(arr.ops) == 1 and "distances" in src(arr)):
+            continue
+        # which side is the deviation (mentions the distances), which the tolerance
+        dev_left = "distances" in src(arr.left)
+        if dev_left == ("distances" in src(arr.comparators[0])) or not isinstance(arr.ops[0], (ast.Lt, ast.LtE, ast.Gt, ast.GtE)):
+            verdicts.append((None, src(st.test)))
+            continue
+        less = isinstance(arr.ops[0], (ast.Lt, ast.LtE))
+        okarr = less if dev_left else not less   # deviation < tolerance : axis ok
+        if neg_arr:
+            okarr = not okarr
+        red = call_name(t)
+        # refusal condition = pol ? red(arr) : not red(arr)
+        good = (red == "all" and okarr and not pol) or (red == "any" and not okarr and pol)
+        verdicts.append((good, f"raises under `{src(st.test)}`" + (f" with {src(t.args[0])} = `{src(arr)}`" if isinstance(t.args[0], ast.Name) else "")))
+    if not verdicts:
+        ctx.und(R, key, "no refusal over a per-axis distance comparison found", fi)
+    for good, det in verdicts:
+        ctx.check(R, key, good, det, fi)
+
+
+_run_c09d = run
+
+
+def run(ctx):  # noqa: F811
+    _run_c09d(ctx)
+    r09_9(ctx, ctx.model)
+    r09_10(ctx, ctx.model)
+    r09_11(ctx, ctx.model)
